@@ -25,6 +25,16 @@ pub struct CfgSpec {
     pub precision: usize,
     /// `None` = rectangular window, `Some(bits)` = Tukey with alpha = f32::from_bits(bits).
     pub tukey_alpha_bits: Option<u32>,
+    /// (builds with the library's `experimental` feature only) direct-MSE LPC estimation
+    #[serde(default, skip_serializing_if = "std::ops::Not::not")]
+    pub direct_mse: bool,
+    /// (experimental builds only) IRLS iterations of the MAE estimator
+    #[serde(default, skip_serializing_if = "is_zero")]
+    pub mae_steps: usize,
+}
+
+fn is_zero(x: &usize) -> bool {
+    *x == 0
 }
 
 impl CfgSpec {
@@ -49,6 +59,8 @@ impl CfgSpec {
                 config::Window::Tukey { alpha } => Some(alpha.to_bits()),
                 _ => None,
             },
+            direct_mse: false,
+            mae_steps: 0,
         }
     }
 
@@ -76,8 +88,8 @@ impl CfgSpec {
         sf.prc.max_parameter = self.rice_max;
         sf.qlpc.lpc_order = self.lpc_order;
         sf.qlpc.quant_precision = self.precision;
-        sf.qlpc.use_direct_mse = false;
-        sf.qlpc.mae_optimization_steps = 0;
+        sf.qlpc.use_direct_mse = cfg!(feature = "experimental") && self.direct_mse;
+        sf.qlpc.mae_optimization_steps = if cfg!(feature = "experimental") { self.mae_steps } else { 0 };
         sf.qlpc.window = match self.tukey_alpha_bits {
             Some(b) => config::Window::Tukey {
                 alpha: f32::from_bits(b),
@@ -126,6 +138,11 @@ impl CfgSpec {
             };
             Some(a.to_bits())
         };
+        if cfg!(feature = "experimental") && r.chance(0.5) {
+            c.direct_mse = r.chance(0.7);
+            c.mae_steps = *r.pick(&[0usize, 1, 2, 5]);
+            c.use_lpc = true;
+        }
         c
     }
 }
@@ -201,6 +218,10 @@ pub struct Workload {
     /// accepted fills are concerned.
     #[serde(default, skip_serializing_if = "Vec::is_empty")]
     pub probe_reads: Vec<usize>,
+    /// the input is `total_samples()` samples of silence generated block by block by the source, never
+    /// materialised (streams of 2^32 samples and more); `sig_kinds` is ignored.
+    #[serde(default, skip_serializing_if = "std::ops::Not::not")]
+    pub synthetic_silence: bool,
     /// (C10, multi-thread slice) a call made on the same simulated main thread before this one.
     #[serde(default, skip_serializing_if = "Option::is_none")]
     pub pre: Option<Box<PreCall>>,
@@ -267,6 +288,9 @@ impl Workload {
 
     /// Interleaved samples of the whole input (before any fault is applied).
     pub fn samples(&self) -> Vec<i32> {
+        if self.synthetic_silence {
+            return vec![];
+        }
         let n = self.total_samples();
         let ch = self.channels;
         let hi: i64 = (1i64 << (self.bits - 1)) - 1;
@@ -428,6 +452,7 @@ pub fn gen(purpose: Purpose, tier: Tier, seed: u64, index: u64) -> Workload {
         faults: vec![],
         hashq_cap: *r.pick(&[16usize, 16, 1, 2, 4]),
         probe_reads: vec![],
+        synthetic_silence: false,
         pre: None,
     };
     // A small Rice-parameter cap on loud wide samples makes the library build
@@ -506,6 +531,45 @@ pub fn gen(purpose: Purpose, tier: Tier, seed: u64, index: u64) -> Workload {
             }
         }
         _ => {}
+    }
+    // Length classes that only a handful of runs can afford, placed at fixed indices so that every batch
+    // of >= 2500 workloads contains them:
+    // * many frames - more than 65536 frames (frame numbers whose coded form needs 4 bytes, counters
+    //   beyond 16 bits): tiny constant blocks;
+    // * (thorough, StreamInfo purpose) huge - 2^32 + a few samples of silence at the maximum block size,
+    //   generated on the fly: the 36-bit total-sample field beyond 32 bits.
+    if index % 2500 == 7 && !matches!(purpose, Purpose::Byzantine) {
+        w.block = 32;
+        w.channels = 1;
+        w.bits = 8;
+        w.sig_kinds = vec![*r.pick(&[0u8, 1])];
+        w.nfull = 65_537 + r.below(300);
+        w.residue = *r.pick(&[0usize, 1, 31]);
+        w.cfg = CfgSpec::default_spec();
+        w.cfg.use_lpc = false;
+        w.hashq_cap = 16;
+        w.short_reads = false;
+        w.probe_reads.clear();
+        w.workers = Some(1 + r.below(3));
+        w.env_workers = None;
+    }
+    if tier == Tier::Thorough && index == 11 && matches!(purpose, Purpose::StreamInfo) {
+        w.block = 32767;
+        w.channels = 1;
+        w.bits = 8;
+        w.sig_kinds = vec![0];
+        w.synthetic_silence = true;
+        w.nfull = (1usize << 32) / 32767;
+        w.residue = (1usize << 32) % 32767 + 5;
+        w.cfg = CfgSpec::default_spec();
+        w.cfg.use_lpc = false;
+        w.hashq_cap = 16;
+        w.short_reads = false;
+        w.len_hint = false;
+        w.delivery = 1;
+        w.probe_reads.clear();
+        w.workers = Some(2);
+        w.env_workers = None;
     }
     match purpose {
         Purpose::Equivalence => {}
@@ -617,7 +681,7 @@ fn gen_fault(r: &mut Rng, w: &Workload, nreads: usize) -> Fault {
         Fault::ReadError {
             k: k_err,
             after_fill: r.chance(0.3) && k_err < nreads,
-            reason: r.below(6) as u8,
+            reason: r.below(10) as u8,
         }
     } else {
         let k = k_err.min(nreads - 1);
@@ -697,6 +761,7 @@ pub fn fresh_small(r: &mut Rng) -> Workload {
         faults: vec![],
         hashq_cap: 16,
         probe_reads: vec![],
+        synthetic_silence: false,
         pre: None,
     };
     if w.nfull == 0 && w.residue == 0 && r.chance(0.7) {
@@ -825,7 +890,7 @@ pub fn neighbour(w0: &Workload, r: &mut Rng) -> (Workload, String) {
                 w.faults.push(Fault::ReadError {
                     k: r.below(nreads + 1),
                     after_fill: r.chance(0.3),
-                    reason: r.below(6) as u8,
+                    reason: r.below(10) as u8,
                 });
                 "source_fails"
             } else {
